@@ -81,6 +81,34 @@ class ReplayTool:
             return dict(status='panic', text=p.stderr.strip()[-2000:], rc=101)
         return dict(status='crash', text=p.stderr.strip()[-2000:], rc=p.returncode)
 
+    def gen_seq(self, pairs, options=None, timeout=120):
+        """pairs: [(schema text, query text)] generated one after the other in ONE process -> [(status, text)]"""
+        self.ready()
+        paths, args = [], []
+        with self._lock:
+            self.n += 1
+            n = self.n
+        for k, (s_, q_) in enumerate(pairs):
+            sp = os.path.join(self.work, f'seq{n}_{k}.graphql')
+            qp = os.path.join(self.work, f'seq{n}_{k}q.graphql')
+            open(sp, 'w').write(s_)
+            open(qp, 'w').write(q_)
+            paths += [sp, qp]
+            args += [sp, qp]
+        try:
+            p = subprocess.run([self.bin, 'gen-seq', json.dumps(options or {})] + args, stdout=subprocess.PIPE, stderr=subprocess.PIPE, text=True, timeout=timeout)
+        finally:
+            for f in paths:
+                try:
+                    os.unlink(f)
+                except OSError:
+                    pass
+        lines = [l for l in p.stdout.splitlines() if l.startswith(('OK\t', 'ERR\t'))]
+        out = [(l.split('\t', 1)[0].lower(), l.split('\t', 1)[1]) for l in lines]
+        while len(out) < len(pairs):
+            out.append(('crash', p.stderr[-300:]))
+        return out
+
     def batch(self, items, timeout=120):
         """items: [(cmd, json-able)] -> list of dicts (one per item) from `verif_replay batch`"""
         self.ready()
